@@ -561,4 +561,69 @@ impl<K: KdfTrait> Drop for ExporterSecret<K> {
         let mut arr = [0u8; 32];
         arr[..31].copy_from_slice(encoded);
         Ok(PublicKey(x25519_dalek::PublicKey::from(arr)))""")]),
+    # ------------------------------------------------------------------ C02
+    dict(name='c02-label-typo-info-hash', expect=[('C02', 'R02.5')],
+         note='both sides agree; interop with RFC implementations breaks',
+         edits=[(SETUP, 'labeled_extract::<Kdf>(&[], &suite_id, b"info_hash", info);', 'labeled_extract::<Kdf>(&[], &suite_id, b"info-hash", info);')]),
+    dict(name='c02-suite-id-kdf-aead-swapped', expect=[('C02', 'R02.2')],
+         note='KDF and AEAD ids written at each other\'s offsets',
+         edits=[(UTIL, """    write_u16_be(&mut suite_id[6..8], Kdf::KDF_ID);
+    write_u16_be(&mut suite_id[8..10], A::AEAD_ID);""", """    write_u16_be(&mut suite_id[8..10], Kdf::KDF_ID);
+    write_u16_be(&mut suite_id[6..8], A::AEAD_ID);""")]),
+    dict(name='c02-mode-bytes-2-3-swapped', expect=[('C02', 'R02.6')],
+         note='Auth <-> AuthPsk mode byte on both sides',
+         edits=[(OPMODE, """            OpModeR::Auth(..) => 0x02,
+            OpModeR::AuthPsk(..) => 0x03,""", """            OpModeR::Auth(..) => 0x03,
+            OpModeR::AuthPsk(..) => 0x02,"""),
+                (OPMODE, """            OpModeS::Auth(..) => 0x02,
+            OpModeS::AuthPsk(..) => 0x03,""", """            OpModeS::Auth(..) => 0x03,
+            OpModeS::AuthPsk(..) => 0x02,""")]),
+    dict(name='c02-secret-salt-ikm-swapped', expect=[('C02', 'R02.5')],
+         note='secret = LabeledExtract(psk, "secret", shared_secret)',
+         edits=[(SETUP, 'labeled_extract::<Kdf>(&shared_secret.0, &suite_id, b"secret", mode.get_psk_bytes());',
+                 'labeled_extract::<Kdf>(mode.get_psk_bytes(), &suite_id, b"secret", &shared_secret.0);')]),
+    dict(name='c02-u16-little-endian', expect=[('C02', 'R02.3')],
+         note='length prefix and suite ids little-endian',
+         edits=[(UTIL, """    buf[0] = ((n & 0xff00) >> 8) as u8;
+    buf[1] =  (n & 0x00ff)       as u8;""", """    buf[1] = ((n & 0xff00) >> 8) as u8;
+    buf[0] =  (n & 0x00ff)       as u8;""")]),
+    dict(name='c02-kdf-id-sha384-is-3', expect=[('C02', 'R02.1')],
+         note='HKDF-SHA384 advertises KDF id 3 (collides with SHA-512)',
+         edits=[(KDF, """    // RFC 9180 §7.2: HKDF-SHA384
+    const KDF_ID: u16 = 0x0002;""", """    // RFC 9180 §7.2: HKDF-SHA384
+    const KDF_ID: u16 = 0x0003;""")]),
+    dict(name='c02-version-label-v2', expect=[('C02', 'R02.4')],
+         note='"HPKE-v2" in every labeled extract/expand',
+         edits=[(KDF, 'const VERSION_LABEL: &[u8] = b"HPKE-v1";', 'const VERSION_LABEL: &[u8] = b"HPKE-v2";')]),
+    dict(name='c02-context-hashes-swapped', expect=[('C02', 'R02.5')],
+         note='key_schedule_context = mode || info_hash || psk_id_hash',
+         edits=[(SETUP, """            psk_id_hash.as_slice(),
+            info_hash.as_slice()""", """            info_hash.as_slice(),
+            psk_id_hash.as_slice()""")]),
+    dict(name='c02-exp-expanded-with-key-label', expect=[('C02', 'R02.5')],
+         note='exporter secret derived with label "key" (equals the AEAD key prefix)',
+         edits=[(SETUP, """            b"exp",
+            sched_context,""", """            b"key",
+            sched_context,""")]),
+    dict(name='c02-labeled-info-order', expect=[('C02', 'R02.4')],
+         note='labeled_info = L || suite_id || "HPKE-v1" || label || info',
+         edits=[(KDF, "let labeled_info = [&len_buf, VERSION_LABEL, suite_id, label, info];", "let labeled_info = [&len_buf, suite_id, VERSION_LABEL, label, info];")]),
+    dict(name='c02-aes256-id-1', expect=[('C02', 'R02.1')],
+         note='AES-256-GCM advertises AEAD id 1',
+         edits=[("src/aead/aes_gcm.rs", """    // RFC 9180 §7.3: AES-256-GCM
+    const AEAD_ID: u16 = 0x0002;""", """    // RFC 9180 §7.3: AES-256-GCM
+    const AEAD_ID: u16 = 0x0001;""")]),
+    dict(name='c02-kem-suite-prefix', expect=[('C02', 'R02.2')],
+         note='KEM suite id prefix "KEX"',
+         edits=[(UTIL, 'let mut suite_id = *b"KEMXX";', 'let mut suite_id = *b"KEXXX";')]),
+    dict(name='c02-export-uses-exp-label', expect=[('C02', 'R02.8')],
+         note='export uses label "exp" instead of "sec" on both sides',
+         edits=[(AEAD, '.labeled_expand(&self.suite_id, b"sec", exporter_ctx, out_buf)', '.labeled_expand(&self.suite_id, b"exp", exporter_ctx, out_buf)')]),
+    dict(name='c02-extract-missing-suite-id', expect=[('C02', 'R02.4')],
+         note='labeled_ikm omits the suite id',
+         edits=[(KDF, """    extract_ctx.input_ikm(VERSION_LABEL);
+    extract_ctx.input_ikm(suite_id);""", """    extract_ctx.input_ikm(VERSION_LABEL);""")]),
+    dict(name='c02-key-expand-half-buffer', expect=[('C02', 'R02.5')],
+         note='only the first half of the AEAD key is derived, the rest stays zero',
+         edits=[(SETUP, '.labeled_expand(&suite_id, b"key", sched_context, key.0.as_mut_slice())', '.labeled_expand(&suite_id, b"key", sched_context, { let n = key.0.len() / 2; &mut key.0.as_mut_slice()[..n] })')]),
 ]
